@@ -568,7 +568,18 @@ impl Dump {
                 tys.push(abi.ret.ty.to_index());
                 rec.insert("sig".into(), json!(tys));
             }
-        } else if can_body {
+        } else if !can_body {
+            if let Ok(abi) = inst.fn_abi() {
+                let mut tys: Vec<usize> = vec![];
+                for a in abi.args.iter() {
+                    self.note_ty(a.ty);
+                    tys.push(a.ty.to_index());
+                }
+                self.note_ty(abi.ret.ty);
+                tys.push(abi.ret.ty.to_index());
+                rec.insert("sig".into(), json!(tys));
+            }
+        } else {
             if let Some(mut body) = inst.body() {
                 body.var_debug_info.clear();
                 let locals: Vec<LocalDecl> = body.locals().to_vec();
